@@ -133,6 +133,11 @@ def _inline_attr_aliases(v: FuncInfo, flow, t: ast.expr, at):
                 ds = flow.reaching(at, n.id)
                 if len(ds) == 1 and ds[0].kind == "assign" and not ds[0].path and isinstance(ds[0].value, ast.Attribute) and isinstance(ds[0].value.value, ast.Name) and ds[0].value.value.id == "self":
                     return copy.deepcopy(ds[0].value)
+                if not ds:
+                    # a module-level constant table of types / literals ((int, float), ("tpcn", "rwm"))
+                    mv = v.module.constants.get(n.id)
+                    if isinstance(mv, (ast.Tuple, ast.List)) and all(isinstance(e, (ast.Name, ast.Constant)) for e in mv.elts):
+                        return copy.deepcopy(mv)
             return n
 
         def _comp(self, n):
